@@ -10,5 +10,15 @@ CLAIMED = {
         "A-CLOCK: time.time_ns() returns a non-negative integer. KeyCache._get_key is used through its (assumed here, verified under C10) summary contract. new_kek copying l0/l1/l2 into the key identifier is covered under C03/C06.",
         "DESIGN 5 C09",
     ),
+    "C11": (
+        "Deductive proof, unbounded in every field value and byte length: pack of KDFParameters, FFCDHParameters, FFCDHKey, ECDHKey, GroupKeyEnvelope, KeyIdentifier and the GetKey request stub is proved equal to a spec rope written from MS-GKDI 2.2.1-2.2.4 / 3.1.4.1 (NDR64: 8-byte maximum count, -len mod 8 padding, unique pointer or null, signed 32-bit key ids; fixed-width big-endian integers of symbolic width keep leading zeros, values that do not fit raise); every unpack is proved to return the encoded value when given that rope; unpack_response is proved to hand exactly the envelope bytes to the envelope decoder for every envelope length and to raise on a non-zero HRESULT.",
+        "A-PY (incl. len(x) <= 2**63-1); UTF-16/UTF-8 codecs as uninterpreted ENC/DEC with the inverse law; 256**n for symbolic n as an uninterpreted POW256 (only its positivity is used). WF preconditions: 32-bit fields and lengths in range.",
+        "DESIGN 5 C11",
+    ),
+    "C20": (
+        "Deductive proof for answers of arbitrary length n >= 1 and arbitrary record fields: _get_highest_answer returns the conversion (trailing dots stripped, port/weight/priority unchanged) of some record that is minimal for (priority, -weight) among all records (loop invariant over the converted list; sorted() by its pairwise-ordered-permutation contract); lookup_dc and async_lookup_dc are proved to issue exactly one resolve('_ldap._tcp.dc._msdcs.<domain>' or the bare prefix, 'SRV', search=True) and to return that selection - both flavours against the same spec.",
+        "A-NET: dns.resolver.resolve / dns.asyncresolver.resolve return a non-empty answer or raise DNSException; assumed builtin contract of sorted() (result is the input composed with a permutation and pairwise non-decreasing in the key); str.rstrip as an uninterpreted function.",
+        "DESIGN 5 C20",
+    ),
 }
 NOT_CLAIMED = {}
